@@ -3,6 +3,9 @@
 import json
 SC="stateless model checking of the implementation under a controlled scheduler (iterative preemption/delay bounding)"
 CHECKS = {
+ "C11": dict(engine="vsched", technique=SC+" over real loopback sockets with scheduler-mediated readiness",
+   text="the real UDP relay services (built from JSON through service.Config.Manager; NAT and session relays, generic and recvmmsg/sendmmsg paths) run on real loopback sockets under the controlled scheduler; every interleaving within a delay bound of the relay threads, 2-3 concurrent sessions to IP and domain targets (resolver lookups are scheduling points; shared packer objects get access points), a garbage datagram and a client address change is executed and checked for destination, payload, reply ownership and true source",
+   note="loopback delivery synchronous with sendto; outgoing client = direct client; timers fire only at quiescence in this check (timeouts are C12)"),
  "C16": dict(engine="vsched", technique=SC,
    text="the real httpproxy.ServerHandle + Proceed (request/response forwarder goroutines over the real in-memory pipe) run under the controlled scheduler between a scripted client and origin; every interleaving within a delay bound is executed for each scripted exchange list and the messages parsed on both sides are compared (method, target, end-to-end fields, bodies, trailers, order, 1xx, connection endings, auth gating)",
    note="origin attached directly to the pipe end; comparison after parsing with net/http on both sides; finite script family listed in evidence"),
